@@ -52,6 +52,9 @@ func histSources(kind string, inline bool) (entry string, files map[string]strin
 		}
 	case kind == "lexerr":
 		main = "a{{ 'unclosed }}b" + main
+	case kind == "lexuni":
+		// multi-byte letters and digits where a name or number is expected, in a print and in a tag
+		main = "a{{ \u00e9 }}b{% if x and \u00fc %}c{% endif %}{% set n = \u0663 %}" + main
 	case kind == "runtime":
 		main = main + "{{ x|nosuchfilter }}"
 	case kind == "extuse":
